@@ -152,7 +152,7 @@ def run(c, chk):
                 chk.fail('R3.2', 'sq-eof', 'src/lexer.l:%d' % dfa.eof_line.get('sq_str', 0),
                          'end of input inside a single-quoted string is not rejected (action classes %s)' % ek)
         else:
-            if set(ek) <= {'pop-include', 'return(-1,none)'} and 'return(-1,none)' in ek:
+            if all(x == 'pop-include' or x.startswith('return(-1,') for x in ek) and any(x.startswith('return(-1,') for x in ek):
                 chk.ok('R3.6', '<%s> EOF' % scname, 'returns EOF / pops an include')
             else:
                 chk.fail('R3.6', 'eof:%s' % scname, 'src/lexer.l:%d' % dfa.eof_line.get(scname, 0),
